@@ -9,6 +9,7 @@ package c15
 // other fields keep ordinary values; the ladder splat is the second of two.
 
 import (
+	"bytes"
 	"fmt"
 	"io"
 	"math"
@@ -144,4 +145,67 @@ func (k *checker) runLoadAfterReplaceReplay() {
 		return
 	}
 	k.c.Eval("spz/load-after-replace", "ok")
+}
+
+// a read after a failed read (core.AfterFailedRead): splat.Read and spz.Read of good streams right
+// after every cut / single-byte damage of a larger one (spz: damage inside the gzip container and,
+// separately, inside the payload of a stored container).
+func (k *checker) runAfterFailedRead() {
+	if !k.mine() {
+		return
+	}
+	k.runAfterFailedReadReplay()
+}
+
+func (k *checker) runAfterFailedReadReplay() {
+	k.c.Nontrivial("after-failed-read")
+	enc := func(n int) []byte {
+		var b bytes.Buffer
+		if err := splat.Write(&b, buildSplatMesh(ladderCloud(n))); err != nil {
+			return nil
+		}
+		return b.Bytes()
+	}
+	readSplat := func(data []byte) (string, error) {
+		m, err := splat.Read(bytes.NewReader(data))
+		if err != nil {
+			return "", err
+		}
+		return fmt.Sprintf("%x", meshlib.QuickHash(m)), nil
+	}
+	for _, good := range [][]byte{enc(3), enc(64)} {
+		if why := core.AfterFailedRead(core.BadInputs(enc(40), 300), good, readSplat); why != "" {
+			k.c.Eval("splat/after-failed-read", "mismatch")
+			k.fail("splat.Read", "reading a stream yields its own records (also right after an earlier read failed)", "after-failed-read", why, Case{Kind: "after-failed-read"})
+			return
+		}
+	}
+	k.c.Eval("splat/after-failed-read", "ok")
+	mk := func(p, version, deg, n int, stored bool) []byte {
+		raw := refEncodeSpz(SpzFile{Version: version, Deg: deg, FB: 12}, baseRecs(p, version, deg, n))
+		if stored {
+			return gzipStored(raw)
+		}
+		return gzipDeflate(raw)
+	}
+	readSpz := func(data []byte) (string, error) {
+		var cl *spz.Cloud
+		var err error
+		if o := core.Guard(func() { cl, err = spz.Read(bytes.NewReader(data)) }); o.Panicked {
+			return "", fmt.Errorf("panic: %s", o.Msg)
+		}
+		if err != nil || cl == nil {
+			return "", err
+		}
+		return fmt.Sprintf("%+v|%x", cl.Header, meshlib.QuickHash(cl.Mesh)), nil
+	}
+	bad := append(core.BadInputs(mk(1, 2, 3, 30, true), 400), core.BadInputs(mk(2, 2, 1, 30, false), 200)...)
+	for _, good := range [][]byte{mk(3, 2, 1, 5, false), mk(4, 1, 0, 9, true), mk(5, 2, 3, 40, false)} {
+		if why := core.AfterFailedRead(bad, good, readSpz); why != "" {
+			k.c.Eval("spz/after-failed-read", "mismatch")
+			k.fail("spz.Read", "reading a stream yields its own splats (also right after an earlier read failed)", "after-failed-read", why, Case{Kind: "after-failed-read"})
+			return
+		}
+	}
+	k.c.Eval("spz/after-failed-read", "ok")
 }
